@@ -316,12 +316,20 @@ static int remoteSync(MPT_INTERFACE(output) *out, int timeout)
 			
 			/* request is answered: waiting command is consumed */
 			ans->cmd = 0;
+			/* reply handler may compose new message: input data is kept apart from output buffer */
+			od->con.out.buf._buf = 0;
 			pos = reply(ans->arg, &msg);
+			if (od->con.out.buf._buf) {
+				MPT_STRUCT(array) in = MPT_ARRAY_INIT;
+				in._buf = buf;
+				mpt_array_clone(&in, 0);
+			}
 			/* processed datagram is no part of next outgoing message */
-			if ((buf = od->con.out.buf._buf)
-			    && !(od->con.out.state & MPT_OUTFLAG(Active))
-			    && buf->_used > smax) {
-				buf->_used = smax;
+			else {
+				if (buf->_used > smax) {
+					buf->_used = smax;
+				}
+				od->con.out.buf._buf = buf;
 			}
 			if (pos < 0) {
 				return 0;
